@@ -221,6 +221,16 @@ Example declared_definitions_example :
   end = true.
 Proof. vm_compute. reflexivity. Qed.
 
+(* D2 as the reason for the second premise: a mentioned non-terminal that carries a synthesised name ("gen1_star", the name
+   given to {a b}) has no rule, yet the specification is accepted - the premise about names beginning with "gen" is needed *)
+Example gen_name_premise_is_needed :
+  match front (cp "grammar g; start = {a b} gen1_star; a = ""x""; b = ""y"";") with
+  | FSpec _ ds => spec_names_distinct ds && negb (forallb (fun A => negb (is_gen A)) (mentioned_nts ds))
+                  && match spec_diags ds with [] => true | _ => false end && negb (spec_wf ds)
+  | _ => false
+  end = true.
+Proof. vm_compute. reflexivity. Qed.
+
 (* D7: token IF = "if" together with the literal "IF": the literal silently takes the token's value *)
 Example name_clash_refuted :
   match front (cp "grammar g; IF = ""if""; start = IF ""IF"";") with
